@@ -1106,7 +1106,10 @@ fn main() {
             violations = 0;
             println!("[sim-threads] NONDETERMINISTIC-FAILURE: the replay of {} in a fresh process does not reproduce it ({}). The execution was not a function of seed and schedule: the library's answer depended on something the scheduler does not own (e.g. process-global state raced by the shards, which run as real threads of one process). Engine C (Miri owns pre-emption inside library calls) is the engine for that.", path.display(), String::from_utf8_lossy(&outp.stdout).lines().last().unwrap_or(""));
         } else {
-            println!("VIOLATION property={} replay={}", mv.property, path.display());
+            if mv.property != pid {
+                println!("[sim-threads] (the violated clause is keyed {} in the oracle; it was found by, and is reported under, the {} check)", mv.property, pid);
+            }
+            println!("VIOLATION property={} replay={}", pid, path.display());
         }
     }
     let wall = t0.elapsed().as_secs_f64();
